@@ -307,6 +307,12 @@ func (self *linkedPairs) growTailLength(l int) {
 	self.tail = tmp
 }
 
+// unset reports whether the pair is the zero Pair a soft delete leaves behind
+// (NewPair never yields hash 0, see caching.StrHash)
+func (self *Pair) unset() bool {
+	return self.hash == 0 && self.Key == "" && self.Value.t == _V_NONE
+}
+
 // linear search
 func (self *linkedPairs) Get(key string) (*Pair, int) {
 	if self.index != nil {
@@ -319,6 +325,10 @@ func (self *linkedPairs) Get(key string) (*Pair, int) {
 				goto linear_search
 			}
 			if n.Key == key {
+				if n.unset() {
+					// the entry outlived a soft delete: the key may still be present further on
+					goto linear_search
+				}
 				return n, i
 			}
 			// hash conflicts
@@ -329,7 +339,8 @@ func (self *linkedPairs) Get(key string) (*Pair, int) {
 	}
 linear_search:
 	for i := 0; i < self.size; i++ {
-		if n := self.At(i); n.Key == key {
+		// an unset pair has Key "": it must not answer for the empty key
+		if n := self.At(i); n.Key == key && !n.unset() {
 			return n, i
 		}
 	}
